@@ -5,6 +5,7 @@ pub mod frun_common;
 pub mod c05;
 pub mod c06;
 pub mod c07;
+pub mod c09;
 pub mod c14;
 pub mod c15;
 pub mod c19;
@@ -21,6 +22,8 @@ pub fn run(ctx: &Ctx, sink: &mut Sink) -> bool {
         "C04" => c04::run_prop(ctx, sink),
         "C18" => c02::run_c18(ctx, sink),
         "C07" => c07::run_prop(ctx, sink),
+        "C08" => c09::run_c08(ctx, sink),
+        "C09" => c09::run_c09(ctx, sink),
         "C19" => c19::run_prop(ctx, sink),
         "C20" => c20::run_prop(ctx, sink),
         "C06" => c06::run_prop(ctx, sink),
